@@ -21,6 +21,21 @@ LETTERS = ["ß", "ŉ", "ǆ", "ǅ", "Ǆ", "İ", "ı", "σ", "ς", "Σ", "ſ", "µ
            "a", "b", "c", "i", "s", "k", "x", "A", "B", "I", "S", "X", "z", "Q", "0", "1", "9", "-", ".", "~", "%", "'", "(", ")", "/"]
 
 
+def _capfold_table():
+    """x -> characters y != x whose upper case lower-cases to x.lower() although y.lower() differs (dotless i, long s, ...):
+    a title starting with y capitalises into text that a second pass reads differently"""
+    tab = {}
+    for c in range(0x110000):
+        y = chr(c)
+        u = y.upper()
+        if len(u) == 1 and u.lower() != y.lower() and len(u.lower()) == 1:
+            tab.setdefault(u.lower(), []).append(y)
+    return tab
+
+
+CAPFOLD = _capfold_table()
+
+
 def case_candidates(ch):
     """one-to-one case variants of a character of a namespace name (as in coq/C12/Proofs.v cv_char)"""
     res = [ch]
@@ -179,6 +194,16 @@ class Gen:
             return {"kind": "plain", "lang": lang, "dns": dns, "spellings": sp, "expect": expect}
         # wild: arbitrary mixes of names, fragments, separators, marks; only idempotence and shape are demanded
         sp = []
+        if k < 0.86 and names:
+            # a namespace name whose first letter is replaced by a letter that only capitalisation folds onto it
+            for _ in range(nsp):
+                n = r.choice(names)[1]
+                alts = CAPFOLD.get(n[0].lower())
+                if alts:
+                    n = r.choice(alts) + n[1:]
+                sp.append(self.edge() + self.lead_colons() + self.spaces(n) + self.wsrun() + ":" + self.edge()
+                          + self.spaces(self.remainder(allow_colon=True)) + self.edge())
+            return {"kind": "wild", "lang": lang, "dns": dns, "spellings": sp, "expect": None}
         for _ in range(nsp):
             parts = []
             for _j in range(r.choice([1, 2, 3, 4])):
